@@ -980,6 +980,21 @@ class GroupBy:
 
         if transform:
             self._unify_group_key_chunks()
+            if func_is_mean:
+                # mean = sum / count per group, computed before broadcasting to the rows;
+                # the trailing slot (null key) has count 0 and becomes null
+                with np.errstate(invalid="ignore", divide="ignore"):
+                    result_columns = [
+                        mean_from_sum_count(
+                            pd.Series(sum_),
+                            pd.Series(
+                                np.concatenate(
+                                    [count, np.zeros(len(sum_) - len(count), dtype=count.dtype)]
+                                )
+                            ),
+                        ).to_numpy()
+                        for sum_, count in zip(result_columns, counts)
+                    ]
             result_columns = [result[self.group_ikey] for result in result_columns]
             if common_index is not None:
                 result_index = common_index
